@@ -71,6 +71,27 @@ def char_soup(rng, max_len=14):
     return "".join(rng.choice(SOUP_ALPHABET) for _ in range(rng.randint(1, max_len)))
 
 
+LIT_PIECES = ["1", "12", "255", " ", "  ", "é", "€", "٣", "a", "z", "\\", "\\n", "\\u{22}", "😀", "_", ".", "0", "x", "\t"]
+
+
+def literal_soup(rng):
+    """quoted literals (char lists / byte lists) in single-, triple- and longer-quote forms with
+    multi-byte content, and number-like tokens with radix prefixes and separators"""
+    k = rng.random()
+    if k < 0.75:
+        q = rng.choice(["'", '"'])
+        n = rng.choice([1, 1, 2, 3, 3, 4, 5])
+        body = "".join(rng.choice(LIT_PIECES) for _ in range(rng.randint(0, 5)))
+        close = q * (n if rng.random() < 0.85 else rng.randint(1, 5))
+        lit = q * n + body + close
+    else:
+        lit = rng.choice(["0", "1", "9", "016", "036", "010", "2", "0x"]) + rng.choice(["_", "", "__"]) + \
+              "".join(rng.choice("0123456789azAZ_.") for _ in range(rng.randint(1, 6)))
+    pre = rng.choice(["", "", "5 + ", "(", "a ", ":s "])
+    post = rng.choice(["", "", " + 5", ")", " b", ".0"])
+    return pre + lit + post
+
+
 def mutate_program(rng, src):
     """an accepted program with one random edit: mostly still lexable, often rejected by parse"""
     if not src:
